@@ -12,10 +12,10 @@ def claim(pid, category, text, note, technique, design_ref, engine):
 SEQ_NOTE = ("Trusted: the abstraction function (harness/cachereplay.go observe/treeOf), the concretisation of model contents as Spec files, "
             "TLC. Small-scope: <=3 directories, <=3 Spec names, 2 devices, <=3 kinds, histories <=12 operations.")
 claim("C01", "model_checking",
-      "TLC checks exhaustively, over every directory list x population x short history of a bounded universe, that the refresh algorithm as coded (ascending scan, conflict set) computes exactly the declarative precedence rule (PrecedenceOK); every enumerated population and thousands of seeded random histories are then executed on the real Cache and the whole query API (devices, winning file, priority, content version, vendors, classes, Specs) compared with the model after NewCache and after every Refresh.",
-      SEQ_NOTE, "TLA+ spec CacheSeq/Resolve model-checked with TLC; behaviours replayed into the real Cache (conformance by replay)", "5 C01, 4.1, 4.2", "cacheseq")
+      "TLC checks exhaustively, over every directory list x population x short history of a bounded universe, that the refresh algorithm as coded (ascending scan, conflict set) computes exactly the declarative precedence rule (PrecedenceOK); every enumerated population and thousands of seeded random histories are then executed on the real Cache and the whole query API (devices, winning file, priority, content version, vendors, classes, Specs) compared with the model after NewCache and after every Refresh. In the other direction every refresh recorded (verif build, CDI_VERIF_TRACE) during the replay and during the repository's own pkg/cdi test suite is validated by TLC against RefreshTrace: the index must be what the precedence rule yields for the population the scan saw.",
+      SEQ_NOTE, "TLA+ spec CacheSeq/Resolve model-checked with TLC; behaviours replayed into the real Cache; recorded refreshes (replay + repository tests) trace-validated against RefreshTrace", "5 C01, 4.1, 4.2", "cacheseq")
 claim("C13", "model_checking",
-      "Same state machine with faults at every position (syntax/semantic/empty/dangling files, directory missing, a file, below a file): TLC checks IsolationOK and the replay compares devices, GetErrors key set (must/may bounds), GetSpecErrors consistency and Refresh()'s error against the model after every refresh, including repairs.",
+      "Same state machine with faults at every position (syntax/semantic/empty/dangling files, directory missing, a file, below a file): TLC checks IsolationOK and the replay compares devices, GetErrors key set (must/may bounds), GetSpecErrors consistency and Refresh()'s error against the model after every refresh, including repairs; the auto-refresh histories are also executed with 'missing' concretised as ENOTDIR (a path below a regular file).",
       SEQ_NOTE + " Unreadable (EACCES) directories are not generated (would need a uid switch).", "TLA+ spec CacheSeq (fault placements) model-checked with TLC; behaviours replayed into the real Cache", "5 C13", "cacheseq")
 claim("C04", "model_checking",
       "Inject is an action of the CacheSeq state machine; for every request over resolvable/unknown/unqualified/empty/conflict-removed/shadowed names (with repetitions) the replay requires the exact miss list in order, an error, a byte-identical OCI spec, and the nil-spec refusal.",
@@ -48,7 +48,7 @@ claim("C07", "model_checking",
       "The grammar is transcribed into TLA+ (Split/Parse/VCOK/NameOK); TLC enumerates every string up to length 4/5 over a 13-symbol alphabet and 3/4 over a 20-symbol boundary alphabet plus part-structured vendor/class=name combinations, checks round-trip/failure-contract/compose-parse on the oracle, and every row is evaluated on all seven parser entry points in three spellings.",
       STR_NOTE, "TLA+ decision procedure (QName.Parse) enumerated by TLC, evaluated on parser.ParseQualifiedName/IsQualifiedName/ParseDevice/QualifiedName/Validate*", "5 C07", "strings")
 claim("C15", "model_checking",
-      "Annotation map state machine in TLA+ (Update/Parse with run-length strings for lengths around 63); TLC explores all single and double updates over 14 plugins x 13 ids x 8 device lists x 5 initial maps and random triples; the real helpers must leave the map untouched on failure, add exactly one legal key whose value parses back, never overwrite, and Parse must return per-key devices in order or an error with empty results.",
+      "Annotation map state machine in TLA+ (Update/Parse with run-length strings for lengths around 63); TLC explores all single and double updates over 16 plugins x 15 ids x 8 device lists x 5 initial maps (single updates), every pair of updates over a core universe, and random triples; the real helpers must leave the map untouched on failure, add exactly one legal key whose value parses back, never overwrite, and Parse must return per-key devices in order or an error with empty results.",
       STR_NOTE, "TLA+ state machine (Annotations) explored by TLC, behaviours replayed into cdi.UpdateAnnotations/ParseAnnotations/AnnotationKey/AnnotationValue", "5 C15", "strings")
 
 claim("C10", "model_checking",
@@ -59,11 +59,11 @@ claim("C10", "model_checking",
 AUTO_NOTE = ("Trusted: the model of inotify/fsnotify delivery (from reading fsnotify 1.5.1), the gate hook placement, the 10 s/2 s timing windows, TLC. "
              "Liveness is checked under weak fairness on delivery, handler and queries; on the code, convergence is observed by polling.")
 claim("C11", "model_checking",
-      "CacheAuto is a TLA+ model of directories, kernel inotify queues, the fsnotify reader, the watcher goroutine and queries; TLC checks convergence (liveness under fairness) over every history of <=4/6 operations of the statement's list at every interleaving. Seeded behaviours and the counter-example schedules the model yields when a repair is switched off are executed on a real auto-refresh cache at three pacings (free, the recorded schedule enforced by a blocking gate at watch.prelock, watcher held to the end) and the query API is polled until it equals a fresh cache.",
-      AUTO_NOTE, "TLA+ model (CacheAuto) with liveness checked by TLC; behaviours and directed counter-example schedules replayed into a real auto-refresh cache through a scheduler gate", "5 C11, 4.2", "cacheauto")
+      "CacheAuto is a TLA+ model of directories, kernel inotify queues, the fsnotify reader, the watcher goroutine and queries; TLC checks convergence (liveness under fairness) over every history of <=4/6 operations of the statement's list at every interleaving. Seeded behaviours and the counter-example schedules the model yields when a repair is switched off are executed on a real auto-refresh cache at three pacings (free, the recorded schedule enforced by a blocking gate at watch.prelock, watcher held to the end) and the query API is polled until it equals a fresh cache. Each execution at the first two pacings is recorded through the hooks (file-system operations, receives, handler and operation snapshots of tracked map / directories in error / indexed content) and validated by TLC against CacheAutoTrace: some behaviour of the model must explain every event and snapshot.",
+      AUTO_NOTE, "TLA+ model (CacheAuto) with liveness checked by TLC; behaviours and directed counter-example schedules replayed into a real auto-refresh cache through a scheduler gate; the recorded executions trace-validated against CacheAutoTrace", "5 C11, 4.2", "cacheauto")
 claim("C20", "model_checking",
-      "Same model with Configure (new watcher and dirErrors map per configuration, goroutines keeping captured arguments, descriptor shortage): TLC checks ConfigureFresh, Bounded, Settles, WatchesOK and convergence over <=2/3 reconfigurations; behaviours are replayed on a real cache; a separate process performs 200/2000 reconfigurations watching inotify descriptors, kernel watches and goroutines, the reaction to changes in final vs dropped directories, descriptor exhaustion before/between reconfigurations and the default cache.",
-      AUTO_NOTE, "TLA+ model (CacheAuto with Configure) checked by TLC; behaviours replayed; /proc-based resource probes over long reconfiguration sequences", "5 C20", "cacheauto")
+      "Same model with Configure (new watcher and dirErrors map per configuration, goroutines keeping captured arguments, descriptor shortage): TLC checks ConfigureFresh, Bounded, Settles, WatchesOK and convergence over <=2/3 reconfigurations; behaviours are replayed on a real cache; a separate process performs 200/2000 reconfigurations watching inotify descriptors, kernel watches and goroutines, the reaction to changes in final vs dropped directories, descriptor exhaustion before/between reconfigurations and the default cache. The recorded executions (including every Configure with its snapshot) are validated by TLC against CacheAutoTrace.",
+      AUTO_NOTE, "TLA+ model (CacheAuto with Configure) checked by TLC; behaviours replayed; recorded executions trace-validated against CacheAutoTrace; /proc-based resource probes over long reconfiguration sequences", "5 C20", "cacheauto")
 claim("C12", "model_checking",
       "Lock discipline as a TLA+ model over Go memory locations (read/write sets of prelude and critical section per public operation, watcher goroutine, atomic switcher): TLC checks NoRace, MutualExclusion, SnapshotOK and deadlock freedom over every interleaving of the explored client programs. The same programs run replicated on all cores under the race detector against a real cache whose directory is flipped by rename between two contents; any race report, any result that is neither content, any stall is a violation.",
       "Exhaustive for the model; statistical for the code (race detector sound for executions seen). The read/write-set table is a transcription of cache.go.",
